@@ -38,7 +38,7 @@ func decompressNoContextTakeover(r io.Reader) io.ReadCloser {
 		// Reset never fails, but handle error in case that changes.
 		fr = flate.NewReader(mr)
 	}
-	return &flateReadWrapper{fr}
+	return &flateReadWrapper{fr: fr, src: mr}
 }
 
 func isValidCompressionLevel(level int) bool {
@@ -124,7 +124,8 @@ func (w *flateWriteWrapper) Close() error {
 }
 
 type flateReadWrapper struct {
-	fr io.ReadCloser
+	fr  io.ReadCloser
+	src io.Reader // what fr reads: the compressed message followed by the tail
 }
 
 func (r *flateReadWrapper) Read(p []byte) (int, error) {
@@ -133,6 +134,11 @@ func (r *flateReadWrapper) Read(p []byte) (int, error) {
 	}
 	n, err := r.fr.Read(p)
 	if err == io.EOF {
+		// The deflate stream can end (final block) before the message does.
+		// Report the end of the message only when the rest of it has arrived.
+		if _, derr := io.Copy(io.Discard, r.src); derr != nil {
+			err = derr
+		}
 		// Preemptively place the reader back in the pool. This helps with
 		// scenarios where the application does not call NextReader() soon after
 		// this final read.
